@@ -357,10 +357,12 @@ fn run(ctx: &RunCtx) -> Result<(), Violation> {
 
 fn extra(tier: Tier, seed: u64) -> ExtraResult {
     let mut out = ExtraResult::default();
-    if tier != Tier::Thorough && std::env::var_os("VERIF_MIRI").is_none() {
-        out.coverage.insert("miri".into(), serde_json::json!("not run in the quick tier"));
+    if std::env::var("VERIF_MIRI").as_deref() == Ok("0") {
+        out.coverage.insert("miri".into(), serde_json::json!("switched off by VERIF_MIRI=0"));
         return out;
     }
-    crate::miri::run_miri(seed, &mut out);
+    // quick: 2 x 16 interpreter seeds (about 20 s); thorough: 2 x 64
+    let default_seeds = if tier == Tier::Thorough { 64 } else { 16 };
+    crate::miri::run_miri(seed, default_seeds, &mut out);
     out
 }
